@@ -31,6 +31,7 @@ type bugOptions struct {
 	noQuery             []string
 	sortBy              string
 	sortDirection       string
+	sortChanged         bool
 	outputFormat        string
 	outputFormatChanged bool
 }
@@ -59,6 +60,7 @@ git bug status:open --by creation "foo bar" baz
 		PreRunE: execenv.LoadBackend(env),
 		RunE: execenv.CloseBackend(env, func(cmd *cobra.Command, args []string) error {
 			options.outputFormatChanged = cmd.Flags().Changed("format")
+			options.sortChanged = cmd.Flags().Changed("by") || cmd.Flags().Changed("direction")
 			return runBug(env, options, args)
 		}),
 		ValidArgsFunction: completion.Ls(env),
@@ -125,6 +127,7 @@ git bug status:open --by creation "foo bar" baz
 func runBug(env *execenv.Env, opts bugOptions, args []string) error {
 	var q *query.Query
 	var err error
+	querySorted := false
 
 	if len(args) >= 1 {
 		// either the shell or cobra remove the quotes, we need them back for the query parsing
@@ -134,11 +137,18 @@ func runBug(env *execenv.Env, opts bugOptions, args []string) error {
 		if err != nil {
 			return err
 		}
+
+		// each argument is one token of the query: does it hold a sort qualifier?
+		for _, arg := range args {
+			if strings.HasPrefix(arg, "sort:") {
+				querySorted = true
+			}
+		}
 	} else {
 		q = query.NewQuery()
 	}
 
-	err = completeQuery(q, opts)
+	err = completeQuery(q, opts, querySorted)
 	if err != nil {
 		return err
 	}
@@ -357,7 +367,7 @@ func bugsOrgmodeFormatter(env *execenv.Env, excerpts []*cache.BugExcerpt) error 
 }
 
 // Finish the command flags transformation into the query.Query
-func completeQuery(q *query.Query, opts bugOptions) error {
+func completeQuery(q *query.Query, opts bugOptions, querySorted bool) error {
 	for _, str := range opts.statusQuery {
 		status, err := common.StatusFromString(str)
 		if err != nil {
@@ -389,6 +399,11 @@ func completeQuery(q *query.Query, opts bugOptions) error {
 		default:
 			return fmt.Errorf("unknown \"no\" filter %s", no)
 		}
+	}
+
+	// the sort qualifier of the query stands unless a sort flag is given
+	if querySorted && !opts.sortChanged {
+		return nil
 	}
 
 	switch opts.sortBy {
